@@ -65,6 +65,17 @@ pub fn pl2_wait_condition(
     r
 }
 
+// ---- colours (C06: the bytes on stdout, colour escapes included, do not depend on scheduling): a source's colour is chosen in the
+// set-up loop, in PathId order, before any worker is started; nothing that happens on the arrival of a datum may choose or change a
+// colour, because arrival order is scheduling.  Every arrival arm gets the colour map and must leave it as it was.
+// stand-ins: termcolor::Color by two values, color_rand() (a global round-robin) opaque
+#[derive(Clone, Copy, PartialEq, Eq)]
+pub enum Color { White, Other }
+pub const COLOR_DEFAULT: Color = Color::White;
+#[verifier::external_body]
+pub fn color_rand() -> Color { unimplemented!() }
+pub type MapPathIdToColor = HashMap<PathId, Color>;
+
 // =====================================================================================================
 // PL3 — a NewMessage is stored as the pending message of its source; nothing else changes
 pub fn pl3_new_message(
@@ -74,8 +85,10 @@ pub fn pl3_new_message(
     map_pathid_datum: &mut MapPathIdDatum,
     set_pathid: &mut SetPathId,
     disconnect: &mut Vec<PathId>,
+    map_pathid_color: &mut MapPathIdToColor,
 )
     ensures
+        final(map_pathid_color)@ == old(map_pathid_color)@,   // C06: arrival never chooses or changes a colour
         final(map_pathid_datum)@ == old(map_pathid_datum)@.insert(pathid, (log_message, is_last_message)),
         final(set_pathid)@ == old(set_pathid)@.insert(pathid),
         final(disconnect)@ == old(disconnect)@,
@@ -105,11 +118,13 @@ pub fn pl3c_file_info(
     map_pathid_datum: &mut MapPathIdDatum,
     set_pathid: &mut SetPathId,
     disconnect: &mut Vec<PathId>,
+    map_pathid_color: &mut MapPathIdToColor,
     fileprocessing_not_okay_in: usize,
     count_since_in: usize,
 ) -> (r: (usize, usize))
     requires fileprocessing_not_okay_in < usize::MAX
     ensures
+        final(map_pathid_color)@ == old(map_pathid_color)@,   // C06: arrival never chooses or changes a colour
         // C06: the source counts as "FileInfo received" -- also when the file could not be processed
         final(map_pathid_received_fileinfo)@ == old(map_pathid_received_fileinfo)@.insert(pathid, true),
         final(map_pathid_datum)@ == old(map_pathid_datum)@,
@@ -143,10 +158,12 @@ pub fn pl3d_file_summary(
     map_pathid_datum: &mut MapPathIdDatum,
     set_pathid: &mut SetPathId,
     disconnect: &mut Vec<PathId>,
+    map_pathid_color: &mut MapPathIdToColor,
     fileprocessing_not_okay_in: usize,
 ) -> (r: usize)
     requires fileprocessing_not_okay_in < usize::MAX
     ensures
+        final(map_pathid_color)@ == old(map_pathid_color)@,   // C06: arrival never chooses or changes a colour
         final(disconnect)@ == old(disconnect)@.push(pathid),
         final(map_pathid_datum)@ == old(map_pathid_datum)@,
         final(set_pathid)@ == old(set_pathid)@,
@@ -185,10 +202,12 @@ pub fn pl3b_recv_error(
     map_pathid_datum: &mut MapPathIdDatum,
     set_pathid: &mut SetPathId,
     disconnect: &mut Vec<PathId>,
+    map_pathid_color: &mut MapPathIdToColor,
     chan_recv_err_in: Count,
 ) -> (chan_recv_err_out: Count)
     requires chan_recv_err_in < u64::MAX
     ensures
+        final(map_pathid_color)@ == old(map_pathid_color)@,   // C06: arrival never chooses or changes a colour
         final(map_pathid_datum)@ == old(map_pathid_datum)@,
         final(set_pathid)@ == old(set_pathid)@,
         final(disconnect)@ == old(disconnect)@.push(pathid),
